@@ -53,6 +53,17 @@ def main():
             tech.append("sidecar contracts on the real Python functions, VCs generated from the current source AST by pyvc")
         if has_c:
             tech.append("contracts on the real C functions, VCs generated from the clang AST by cwp (bit-vectors, object/offset memory)")
+        quals = [(f if isinstance(f, str) else f[0]) for f in sp["functions"]]
+        if any("@" in q for q in quals):
+            tech.append("block contracts on statement ranges of the real functions (extracted mechanically on every run; entry conditions assumed and listed)")
+        if any(q.startswith("lemma::") for q in quals):
+            tech.append("pure lemmas over the spec functions (z3)")
+        if any(q.startswith("logblocks::") for q in quals):
+            tech.append("non-interference obligations enumerated from the current source and decided by a syntactic frame analysis (engine/logblocks.py, no SMT)")
+        if any(q.startswith("dominance::") for q in quals):
+            tech.append("control-flow placement obligations ('only after decrypt_packet returned normally') decided on the AST of the current source (engine/dominance.py, no SMT)")
+        if sp.get("bounded"):
+            tech.append("bounded native stand-ins (%s) run as cross-checks, labelled bounded, never counted as proved" % ", ".join(sp["bounded"]))
         checks.append(
             {
                 "property_id": pid,
